@@ -36,6 +36,19 @@ def counted? (ws : List String) : Option (List Float × List String) := do
     let xs ← floats? (r.take k)
     pure (xs, r.drop k)
 
+/-- parse `<k> a1 b1 … ak bk rest…` -/
+def counted2? (ws : List String) : Option (List (Float × Float) × List String) := do
+  match ws with
+  | [] => none
+  | n :: r =>
+    let k ← n.toNat?
+    if r.length < 2 * k then none else
+    let xs ← floats? (r.take (2 * k))
+    let rec pairs : List Float → List (Float × Float)
+      | a :: b :: t => (a, b) :: pairs t
+      | _ => []
+    pure (pairs xs, r.drop (2 * k))
+
 def subs? : List String → Option (List (Float × Bool))
   | [] => some []
   | l :: c :: r => do
@@ -72,5 +85,20 @@ def handle : List String → Option String
       | .stuck => pure "STUCK"
       | .pieces ps =>
         pure (s!"P {ps.length}" ++ String.join (ps.map fun (k, a, b) => s!" {k} {hexOfFloat a} {hexOfFloat b}"))
+  | "VERDICT" :: off :: r => do
+    -- VERDICT <offset> <n> d… <length> <k> a1 b1 … ak bk : observed arc-length intervals of one
+    -- straight subpath; decided against the pattern semantics with τ = 1e-7·length + 1e-9
+    let o ← floatOfHex? off
+    let (d, r1) ← counted? r
+    match r1 with
+    | len :: r2 =>
+      let L ← floatOfHex? len
+      let (ab, _) ← counted2? r2
+      let τ := 1e-7 * L + 1e-9
+      match verdictBad fmodF (· / 2) fuelF o (doubled d) L τ ab with
+      | none => pure "skip stuck"
+      | some [] => pure "ok"
+      | some (x :: _) => pure s!"FAIL pattern-mismatch at arc length {x} of {L} (tolerance {τ})"
+    | _ => none
   | _ => none
 def main : IO Unit := runDriver handle
